@@ -2,7 +2,7 @@
 
 Tables whose rows HOLD Inventory objects that outlive a statement (a user table registered with
 `conn.tables[name] = table`, possibly shared by several connections), abstract aggregate statements
-[nodes, grouped, having] of InvSum <-> BQL, histories of statements, and the projection of what they return.
+[nodes, grouped, having, limit] of InvSum <-> BQL, histories of statements, and the projection of what they return.
 
 node = [kind, f]:  "sum" sum(inv) | "fsum" f(sum(inv)) | "sumf" sum(f(inv));  f = [name, target currency, date ordinal]
 """
@@ -41,8 +41,9 @@ def node_name(nd):
     return kind if kind == 'sum' else '%s-%s%s' % (kind, f[0], '-dated' if f[2] else '')
 
 
-def stmt(nodes, grouped=False, having=False):
-    return {'nodes': [list(n) for n in nodes], 'grouped': bool(grouped), 'having': bool(having)}
+def stmt(nodes, grouped=False, having=False, limit=0):
+    """limit: the LIMIT clause, 0 for none (no ORDER BY: which groups are returned is not C12's business)"""
+    return {'nodes': [list(n) for n in nodes], 'grouped': bool(grouped), 'having': bool(having), 'limit': int(limit)}
 
 
 HAVING = 'NOT empty(sum(%s))'
@@ -57,6 +58,8 @@ def stmt_text(s, source='#lots', col='inv', key='g'):
             text += ' HAVING ' + HAVING % col
     elif s['having']:
         raise ValueError('BQL has HAVING after GROUP BY only')
+    if s.get('limit'):
+        text += ' LIMIT %d' % s['limit']
     return text
 
 
@@ -71,7 +74,8 @@ def stmt_ast(s, source='lots', col='inv', key='g'):
         gb = ast.GroupBy([ast.Column('g')], hb.fragment(HAVING % col) if s['having'] else None)
     elif s['having']:
         raise ValueError('BQL has HAVING after GROUP BY only')
-    return ast.Select(tg, ast.Table(source) if isinstance(source, str) else source, None, gb, None, None, None, None)
+    return ast.Select(tg, ast.Table(source) if isinstance(source, str) else source, None, gb, None, None,
+                      s.get('limit') or None, None)
 
 
 def project(raw, s):
@@ -136,4 +140,7 @@ def random_stmt(rng, fs, max_nodes=3):
         else:
             nodes.append(['sumf', list(rng.choice(fs))])
     grouped = rng.random() < 0.5
-    return stmt(nodes, grouped, grouped and rng.random() < 0.3)
+    having = grouped and rng.random() < 0.3
+    # a LIMIT smaller than the number of groups returns some of them: each one must still be complete
+    limit = rng.choice((1, 1, 2, 3)) if rng.random() < (0.45 if grouped else 0.15) else 0
+    return stmt(nodes, grouped, having, limit)
